@@ -130,7 +130,9 @@ func mutableParts(x any) map[uintptr]string {
 				visit(v.Field(i), path+"."+f.Name)
 			}
 		case reflect.Slice:
-			if v.Len() > 0 {
+			// a backing array is a mutable part whether or not the list currently shows any of it: appends on either
+			// side of a shared empty list with spare capacity overwrite each other
+			if v.Cap() > 0 {
 				out[v.Pointer()] = path + "[]"
 			}
 			if v.Type() == kindsType {
@@ -150,6 +152,48 @@ func mutableParts(x any) map[uintptr]string {
 	}
 	visit(reflect.ValueOf(x), "")
 	return out
+}
+
+// emptyLists sets the length of every settable, non-empty list of a model (kind lists excepted) to zero, keeping its
+// capacity, innermost lists first; it returns how many lists it emptied.
+func emptyLists(x any) int {
+	n := 0
+	seen := map[uintptr]bool{}
+	var visit func(v reflect.Value)
+	visit = func(v reflect.Value) {
+		switch v.Kind() {
+		case reflect.Interface:
+			if !v.IsNil() {
+				visit(v.Elem())
+			}
+		case reflect.Pointer:
+			if !v.IsNil() && !seen[v.Pointer()] {
+				seen[v.Pointer()] = true
+				visit(v.Elem())
+			}
+		case reflect.Struct:
+			for i := 0; i < v.NumField(); i++ {
+				f := v.Type().Field(i)
+				if !f.IsExported() && !f.Anonymous || isPayload(f) || f.Type.Name() == "errorContext" {
+					continue
+				}
+				visit(v.Field(i))
+			}
+		case reflect.Slice:
+			if v.Type() == kindsType {
+				return
+			}
+			for i := 0; i < v.Len(); i++ {
+				visit(v.Index(i))
+			}
+			if v.Len() > 0 && v.CanSet() {
+				v.SetLen(0)
+				n++
+			}
+		}
+	}
+	visit(reflect.ValueOf(x))
+	return n
 }
 
 // mutate changes every scalar, every kind list, every map and every string slice of a model in place.
@@ -274,6 +318,14 @@ func Copy(args []string) {
 			}
 			copyFacts(w, hid, m.Text, n.val, func(x any) any { return cypher.Copy(x) })
 			hid++
+		}
+		// the same model after its lists were emptied in place (what expressionList.Remove or a [:0] reset leaves
+		// behind: no elements, spare capacity): every m-th model, whole query only
+		if hid%5 == 0 {
+			if own := cypher.Copy(m.Query); own != nil && emptyLists(own) > 0 {
+				copyFacts(w, hid, m.Text+"  (lists emptied in place)", own, func(x any) any { return cypher.Copy(x) })
+				hid++
+			}
 		}
 	}
 	w.Close()
